@@ -333,13 +333,37 @@ def r11_9(run, model):
             if "MultilineStrExpr" not in S.norm_ws(run.facts.text(LOWER, arm["pat"]["sp"])):
                 continue
             found = True
-            trims = sorted({c["method"] for c in S.walk(arm["body"]) if c["k"] == "MethodCall" and c["method"].startswith("trim")})
+            trims = sorted({c["method"] for c in S.walk(arm["body"]) if c["k"] == "MethodCall" and c["method"].startswith("trim")
+                            and not (c["method"] == "trim_end_matches" and c["args"] and S.norm_ws(run.facts.text(LOWER, c["args"][0]["sp"])) == "'\\r'")})
             bad = [t for t in trims if not t.startswith("trim_start")]
             run.ob("R11.9", "MultilineStrExpr|only leading indentation is stripped", not bad, site(LOWER, arm["sp"]),
                    f"trim calls on the line: {trims or 'none'}" + (f"; {bad} also remove the end of the line" if bad else ""),
                    witness="\\\\Name:<space><space> loses its trailing blanks: the string denotes \"Name:\" instead of \"Name:  \"")
     if not found:
         raise AnalysisIncomplete("MultilineStrExpr arm not found")
+
+
+def r11_12(run, model):
+    run.rule("R11.12", "a multi-line string denotes the same characters in an LF and in a CRLF file: the lexer admits `\\r` as whitespace and the "
+                       "lowering splits the token with str::lines (which drops `\\n` and `\\r\\n`), so either the scanner that cuts the token at "
+                       "the last `\\n` also looks at a preceding `\\r`, or the lowering removes a trailing `\\r` from each line")
+    LEX = "crates/lexer/src/lib.rs"
+    f = model.fn("lex_multiline_str", LEX)
+    cuts = [c for c in S.walk(f.body) if c["k"] == "Lit" and S.norm_ws(run.facts.text(LEX, c["sp"])) == "b'\\n'"]
+    if not cuts:
+        raise AnalysisIncomplete("lex_multiline_str: no comparison with b'\\n' found")
+    cr = [c for c in S.walk(f.body) if c["k"] == "Lit" and S.norm_ws(run.facts.text(LEX, c["sp"])) == "b'\\r'"]
+    g = model.fn("lower_expr_with_args", LOWER)
+    low = False
+    for m in S.find(g.body, "Match"):
+        for arm in m["arms"]:
+            if "MultilineStrExpr" in S.norm_ws(run.facts.text(LOWER, arm["pat"]["sp"])):
+                low = any(c["k"] == "MethodCall" and c["method"] in ("strip_suffix", "trim_end_matches") and c["args"]
+                          and S.norm_ws(run.facts.text(LOWER, c["args"][0]["sp"])) == "'\\r'" for c in S.walk(arm["body"]))
+    ok = bool(cr) or low
+    run.ob("R11.12", "lex_multiline_str|a carriage return before the cut line feed is handled", ok, site(LEX, f.node["sp"]),
+           f"scanner compares with b'\\n' {len(cuts)} times, with b'\\r' {len(cr)} times; lowering strips a trailing '\\r': {low}",
+           witness="the file `let s = \\\\one<CR><LF> \\\\two<CR><LF>;` saved with CRLF line ends: the literal denotes \"one\\ntwo\\r\" (LF file: \"one\\ntwo\")")
 
 
 def r11_10(run, model):
@@ -380,6 +404,7 @@ def run(run, model):
     run.try_rule(c10.r10_2, model)
     run.try_rule(r11_8, model)
     run.try_rule(r11_9, model)
+    run.try_rule(r11_12, model)
     run.try_rule(r11_6, model)
     run.try_rule(r11_7, model)
     run.try_rule(r11_1, model)
